@@ -59,7 +59,7 @@ PROPS["C05"] = dict(
     note=EI_NOTE + "; formatting of the result after a fault is C18/C19's subject")
 PROPS["C10"] = dict(
     level="other", contracts=["contracts.extract_iter", "contracts.small_units", "contracts.c12"],
-    unit_filter=lambda u: u.name in ("C05.extract_iter", "C10.frame_iterator_next", "C12.customize_it", "C12.customize"),
+    unit_filter=lambda u: u.name in ("C05.extract_iter", "C10.frame_iterator_next", "C12.customize_it", "C12.customize") or u.name.startswith("C10.default."),
     legs=[dict(name="c10_model", cmd="PYTHONPATH={repo} " + PY312 + " legs/c10_model.py"),
           dict(name="c12_native", cmd="PYTHONPATH={repo} " + PY312 + " legs/c12_native.py")] + old_pythons("c10_model", "c10_model.py"), technique=TECH + "; bounded reference-interpreter leg",
     explanation="Deductive part (all queue contents and hook results, unbounded): the per-iteration step clauses C10.step.* (head frame "
@@ -76,7 +76,7 @@ PROPS["C10"] = dict(
           "unwrap step (None members filtered) are argued in DESIGN.md, not machine-checked; termination is not proved (known finding F9).",
     note=EI_NOTE)
 PROPS["C11"] = dict(
-    level="proof", contracts=["contracts.c11", "contracts.c13", "contracts.glue_small"],
+    level="proof", contracts=["contracts.c11", "contracts.c13", "contracts.glue_small", "contracts.small_units"],
     unit_filter=lambda u: u.name.startswith("C11.") or u.name == "C13.push", legs=[dict(name="c11_contexts", cmd="PYTHONPATH={repo} " + PY312 + " legs/c11_contexts.py")] + old_pythons("c11_contexts", "c11_contexts.py"), technique=TECH + "; bounded native cross-check",
     claim="fill_context's loop is cut by an invariant: elaborate_context runs on the current manager, unwrap_context sees it as elaborate left "
           "it; a returned manager replaces obj and resets inner_stack/children before re-elaboration (invariant for k>0); None stops with "
@@ -117,7 +117,7 @@ PROPS["C16"] = dict(
     note=EI_NOTE + "; that extract_outermost(origin) unwraps to origin's own frame relies on the built-in unwrapper contracts (C03 glue units)")
 PROPS["C03"] = dict(
     level="other", contracts=["contracts.extract_iter", "contracts.small_units", "contracts.glue_small"],
-    unit_filter=lambda u: u.name.startswith("C03.") or u.name == "C05.extract_iter",
+    unit_filter=lambda u: u.name.startswith("C03.") or u.name in ("C05.extract_iter", "C10.default.unwrap_stackitem"),
     legs=[dict(name="chains_C03", cmd="PYTHONPATH={repo} " + PY312 + " legs/chains.py C03"),
           dict(name="chains_C03_py311", cmd="PYTHONPATH={repo} " + PY311 + " legs/chains.py C03")] + old_pythons("chains_C03", "chains.py C03"), technique=TECH + "; bounded throw-oracle leg for the interpreter axioms",
     explanation="Deductive part: the five built-in unwrappers are proved against their contracts (suspended: (own frame, delegate); running: "
@@ -194,7 +194,7 @@ BOUNDED_NOTE = ("NOT a proof: bound = G1 programs of nesting depth <= 2 plus the
                 "sample of full depth 3; the ground truth is a shadow log kept by the generated managers; `match` statements and >2 items per "
                 "with are not generated")
 PROPS["C01"] = dict(
-    level="exploration", contracts=["contracts.inspect311", "contracts.c01_lemmas", "contracts.lowlevel", "contracts.inspect310"],
+    level="exploration", contracts=["contracts.inspect311", "contracts.c01_lemmas", "contracts.lowlevel", "contracts.inspect310", "contracts.c02_exiting"],
     unit_filter=lambda u: (not u.name.startswith("C20.") or u.name == "C20.contexts_active_in_frame") and u.name != "C02.inspect_frame_310.stack",
     legs=[dict(name="c02_exit_names", cmd="PYTHONPATH={repo} " + PY312 + " legs/c02_exit_names.py"),
           dict(name="c02_exit_names_O", cmd="PYTHONPATH={repo} " + PY312 + " -O legs/c02_exit_names.py"),
@@ -211,15 +211,16 @@ PROPS["C01"] = dict(
           g1("suspended", PY39, "py39", thorough_only=True, vendor=True), g1("suspended", PY312, "py312", 3, True, stride=40)],
     technique=BOUNDED_TECH + "; sub-lemmas (varint / exception-table decoding, handler-chain walk, the join of block stack and "
               "with-statement table in _contexts_active_by_trickery) discharged deductively",
-    explanation="Deductive sub-lemmas reported alongside the bounded stand-in (they do not make the property proved): _parse_varint and _parse_exception_table decode exactly the spec function of the 3.11+ table format for all byte strings; inspect_frame's handler-chain walk returns the outside-in chain of handlers covering f_lasti (relative to sorted, disjoint table entries); analyze_with_blocks returns a FRESH dict of FRESH Context templates that are obj-less and not exiting (3.12 and 3.10 configurations of the source); the 3.9/3.10 inspect_frame's block-stack walk (statements selected by pattern, 3.10 configuration) records exactly the SETUP_FINALLY entries among the first f_iblock block-stack entries, in order, each at position = number of such entries before it, handler scaled to bytes, level copied, reading no entry at or above f_iblock; _contexts_active_by_trickery joins them correctly: entry j of the result is the j-th block of the block stack whose handler is a key of the table, no such block is dropped or reordered, its obj is the __self__ of the stack slot just below the block's level, is_async / start_line are the table's, and the entry for a context whose exit is in progress is appended last with is_exiting. NOT decided deductively: which with statement a handler offset belongs to and where an exit call sits in the bytecode (analyze_with_blocks' layout knowledge, currently_exiting_context): the CPython compiler is not formalised; the G1 legs decide it.",
+    explanation="Deductive sub-lemmas reported alongside the bounded stand-in (they do not make the property proved): _parse_varint and _parse_exception_table decode exactly the spec function of the 3.11+ table format for all byte strings; inspect_frame's handler-chain walk returns the outside-in chain of handlers covering f_lasti (relative to sorted, disjoint table entries); analyze_with_blocks returns a FRESH dict of FRESH Context templates that are obj-less and not exiting (3.12 and 3.10 configurations of the source); the 3.9/3.10 inspect_frame's block-stack walk (statements selected by pattern, 3.10 configuration) records exactly the SETUP_FINALLY entries among the first f_iblock block-stack entries, in order, each at position = number of such entries before it, handler scaled to bytes, level copied, reading no entry at or above f_iblock; _contexts_active_by_trickery joins them correctly: entry j of the result is the j-th block of the block stack whose handler is a key of the table, no such block is dropped or reordered, its obj is the __self__ of the stack slot just below the block's level, is_async / start_line are the table's, and the entry for a context whose exit is in progress is appended last with is_exiting. NOT decided deductively: which with statement a handler offset belongs to and where an exit call sits in the bytecode (analyze_with_blocks' layout knowledge, currently_exiting_context): the CPython compiler is not formalised; the G1 legs decide it. Two closures of currently_exiting_context (3.11+ branch) are under contract as well: innermost_with_handler(at) returns (depth, target) of the FIRST entry on the exception table's handler chain from `at` (at each hop the first entry covering the current offset) whose handler starts with PUSH_EXC_INFO; WITH_EXCEPT_START, None if the chain leaves the table first (C02.handler_chain.*); predecessors(of) returns exactly the instructions that fall through to `of` (CACHE entries skipped, never-falling-through opnames excluded) or jump to it, in instruction order, none twice (C02.predecessors.*). That the sequence matched before them IS an exit call and the choice among candidates stay with the bounded legs.",
     claim="Bounded stand-in: at every suspension point of every program of the family, Frame.contexts equals the shadow log (identity of obj, "
           "is_async, is_exiting on exactly the exiting one) with no InspectionWarning; plus every exit site of the running interpreter's "
           "standard library resolves to the with block on its own source line. Sub-lemmas proved deductively are reported alongside and do "
           "not make this a proof.",
     note=BOUNDED_NOTE)
 PROPS["C02"] = dict(
-    level="exploration", contracts=["contracts.inspect311", "contracts.inspect310", "contracts.c13", "contracts.lowlevel"],
-    unit_filter=lambda u: u.name in ("C07.inspect_frame_311", "C02.inspect_frame_310.stack", "C13.push", "C20.contexts_active_in_frame"),
+    level="exploration", contracts=["contracts.inspect311", "contracts.inspect310", "contracts.c13", "contracts.lowlevel", "contracts.c02_exiting"],
+    unit_filter=lambda u: u.name in ("C07.inspect_frame_311", "C02.inspect_frame_310.stack", "C13.push", "C20.contexts_active_in_frame",
+                                     "C02.innermost_with_handler", "C02.predecessors"),
     legs=[dict(name="c02_exit_names", cmd="PYTHONPATH={repo} " + PY312 + " legs/c02_exit_names.py"),
           dict(name="c02_exit_names_py311", cmd="PYTHONPATH={repo} " + PY311 + " legs/c02_exit_names.py")] + old_pythons("c02_exit_names", "c02_exit_names.py") + [
           dict(name="c13_options", cmd="PYTHONPATH={repo} " + PY312 + " legs/c13_options.py"), g1("running", PY312, "py312"), g1("running", PY311, "py311"),
@@ -227,7 +228,7 @@ PROPS["C02"] = dict(
                                              g1("running", PY39, "py39", thorough_only=True, vendor=True),
                                              g1("running", PY312, "py312", 3, True, stride=40)],
     technique=BOUNDED_TECH,
-    explanation='Deductive sub-lemma: inside inspect_frame (3.11+), a frame that is executing (stacktop == -1) has its value stack cut to the depth of the FIRST exception-table entry covering f_lasti, computed in the same validated attempt, 0 if none covers it (C02.trim, C02.first_covering_entry_scan); on 3.9/3.10 (statements selected by pattern from the other inspect_frame, 3.10 configuration) a running frame\'s raw stack is cut to the deepest level any recorded block needs (0 without blocks) before any slot is turned into an object reference, NULL slots become None, and a suspended frame\'s slots are looked up among the frame\'s gc referents by address (never cast), None when no referent lives there; Because every frame inward of a re-entrant extraction gets its contexts only if the per-thread options survive it, ExtractOptions.push (restores both fields on every exit) and the options leg run here too. c02_exit_names: the exiting manager is identified whatever its exit function is called (aliased, decorated with an explicit self, inherited, lambda, async alias) for every way of leaving the block; everything else is the bounded stand-in.',
+    explanation='Deductive sub-lemma: inside inspect_frame (3.11+), a frame that is executing (stacktop == -1) has its value stack cut to the depth of the FIRST exception-table entry covering f_lasti, computed in the same validated attempt, 0 if none covers it (C02.trim, C02.first_covering_entry_scan); on 3.9/3.10 (statements selected by pattern from the other inspect_frame, 3.10 configuration) a running frame\'s raw stack is cut to the deepest level any recorded block needs (0 without blocks) before any slot is turned into an object reference, NULL slots become None, and a suspended frame\'s slots are looked up among the frame\'s gc referents by address (never cast), None when no referent lives there; Because every frame inward of a re-entrant extraction gets its contexts only if the per-thread options survive it, ExtractOptions.push (restores both fields on every exit) and the options leg run here too. c02_exit_names: the exiting manager is identified whatever its exit function is called (aliased, decorated with an explicit self, inherited, lambda, async alias) for every way of leaving the block; everything else is the bounded stand-in. Two closures of currently_exiting_context (3.11+ branch) are under contract as well: innermost_with_handler(at) returns (depth, target) of the FIRST entry on the exception table\'s handler chain from `at` (at each hop the first entry covering the current offset) whose handler starts with PUSH_EXC_INFO; WITH_EXCEPT_START, None if the chain leaves the table first (C02.handler_chain.*); predecessors(of) returns exactly the instructions that fall through to `of` (CACHE entries skipped, never-falling-through opnames excluded) or jump to it, in instruction order, none twice (C02.predecessors.*). That the sequence matched before them IS an exit call and the choice among candidates stay with the bounded legs.',
     claim="Bounded stand-in: the same family probed from inside every __enter__/__exit__/__aenter__/__aexit__ invocation and every body call "
           "of running coroutines, generators and async generators (extract_since on the running frame): a manager being entered is not yet "
           "listed, one being exited is listed last with is_exiting and obj set, for every way of leaving the block.",
